@@ -188,7 +188,8 @@ def reference_formula(p, vs, env):
         zb = [z for v, z in zip(vs, zs) if isinstance(v, BoolVar)]
         zi = [z for v, z in zip(vs, zs) if isinstance(v, IntVar)]
         body = z3.And([trees.ref_desc(t, zb, zi) for t in p["steps"] if trees.buildable(t)] or [z3.BoolVal(True)])
-    return z3.And(env.domain(vs), body)
+    dom = [z3.And(z >= d[1], z <= d[2]) for z, d in zip(zs, p["vars"]) if d[0] == "i"]     # declared domains (program text)
+    return z3.And(z3.And(dom) if dom else z3.BoolVal(True), body)
 
 
 def holds(p, vs, combo):
@@ -200,7 +201,7 @@ def holds(p, vs, combo):
 
 
 def exact_facts_bruteforce(p, vs):
-    ranges = [(False, True) if isinstance(v, BoolVar) else range(v.lo, v.hi + 1) for v in vs]
+    ranges = [(False, True) if d[0] == "b" else range(d[1], d[2] + 1) for d in p["vars"]]
     sols = []
     for combo in itertools.product(*ranges):
         if holds(p, vs, combo):
@@ -226,13 +227,14 @@ def check_one(p, route):
         warnings.simplefilter("ignore")
         log = []
         try:
+            if p.get("pre_find"):
+                # history: find_answer() on the same Solver first; the values it leaves in .sol must not survive as 'facts'
+                s.find_answer(backend=backend_for(route, []))
             if p.get("keys2"):
                 # history: a first solve, then more answer keys are registered on the same Solver, then the solve that is checked
                 s.solve(backend=backend_for(route, []))
                 for k in p["keys2"]:
                     s.add_answer_key(vs[k])
-                for v in vs:
-                    v.sol = None
             ret = s.solve(backend=backend_for(route, log))
         except Exception as e:
             return {"kind": "exception", "detail": "%s: %s" % (type(e).__name__, str(e)[:200])}, 0, 0.0
@@ -344,12 +346,12 @@ def _replay_once(payload, verbose, scripted):
     with warnings.catch_warnings():
         warnings.simplefilter("ignore")
         try:
+            if p.get("pre_find"):
+                s.find_answer(backend=backend_for(route))
             if p.get("keys2"):
                 s.solve(backend=backend_for(route))
                 for k in p["keys2"]:
                     s.add_answer_key(vs[k])
-                for v in vs:
-                    v.sol = None
             ret = s.solve(backend=be)
         except Exception as e:
             if verbose:
@@ -400,6 +402,19 @@ def programs(tier, rng):
         steps = [trees.as_constraint(rng, trees.random_tree(rng, rng.choice("BI"), rng.randint(1, 3))) for _ in range(rng.randint(1, 3))]
         keys = [i for i in range(4) if rng.random() < 0.6]
         out.append({"kind": "tree", "vars": [("b",), ("i", -2, 2), ("b",), ("i", 0, 3)], "steps": steps, "keys": keys})
+    # answer keys that no constraint mentions (a one-value domain is still a fact; a free boolean is not)
+    for k in range(60 if tier == "quick" else 400):
+        steps = [trees.as_constraint(rng, trees.random_tree(rng, rng.choice("BI"), rng.randint(1, 2))) for _ in range(rng.randint(0, 2))]
+        keys = sorted(set([4, 5, 6][: 1 + k % 3] + [i for i in range(4) if rng.random() < 0.4]))
+        out.append({"kind": "tree", "vars": [("b",), ("i", -2, 2), ("b",), ("i", 0, 3), ("i", 4 + k % 2, 4 + k % 2), ("b",), ("i", -7, -6 - k % 2)],
+                    "steps": steps, "keys": keys})
+    # find_answer() first, then solve() on the same Solver
+    for mask in range(1, 256, 3 if tier == "quick" else 1):
+        S = [cube[i] for i in range(8) if mask >> i & 1]
+        out.append({"kind": "set", "vars": [("b",)] * 3, "set": S, "keys": [[0, 1, 2], [0, 2], [1]][mask % 3], "pre_find": True})
+    for mask in range(1, 512, 5 if tier == "quick" else 1):
+        S = [sq[i] for i in range(9) if mask >> i & 1]
+        out.append({"kind": "set", "vars": [("i", 0, 2), ("i", 0, 2)], "set": S, "keys": [[0, 1], [0], [1]][mask % 3], "pre_find": True})
     return out
 
 
